@@ -32,13 +32,13 @@ func (c *Ctx) shimChecks(r *gen.Rand, i int64, k *big.Int, s *edwards25519.Scala
 		acc.Lsh(acc, 4)
 		acc.Add(acc, big.NewInt(int64(d[j])))
 		if d[j] < -8 || d[j] > 8 {
-			c.Fail("signed radix-16 digit out of range", map[string]any{"k": intHex(k), "position": j, "digit": d[j]})
+			c.Mech("signed radix-16 digit out of range", map[string]any{"k": intHex(k), "position": j, "digit": d[j]})
 		}
 	}
 	c.Eval(true, []byte("radix16"), []byte(intHex(k)))
 	c.Tally("shim: radix-16 recodings checked")
 	if acc.Cmp(k) != 0 {
-		c.Fail("signed radix-16 digits do not reconstruct the scalar", map[string]any{"k": intHex(k), "reconstructed": intHex(acc)})
+		c.Mech("signed radix-16 digits do not reconstruct the scalar", map[string]any{"k": intHex(k), "reconstructed": intHex(acc)})
 	}
 	for _, w := range []uint{5, 8} {
 		n := edwards25519.VerifNAF(s, w)
@@ -57,16 +57,16 @@ func (c *Ctx) shimChecks(r *gen.Rand, i int64, k *big.Int, s *edwards25519.Scala
 				lim = 127
 			}
 			if n[j]%2 == 0 || n[j] > lim || n[j] < -lim || (w == 5 && (n[j] > 15 || n[j] < -15)) {
-				c.Fail("NAF digit not odd or out of range", map[string]any{"k": intHex(k), "w": w, "position": j, "digit": n[j]})
+				c.Mech("NAF digit not odd or out of range", map[string]any{"k": intHex(k), "w": w, "position": j, "digit": n[j]})
 			}
 			if j-last < int(w) {
-				c.Fail("NAF digits are adjacent", map[string]any{"k": intHex(k), "w": w, "position": j})
+				c.Mech("NAF digits are adjacent", map[string]any{"k": intHex(k), "w": w, "position": j})
 			}
 			last = j
 		}
 		c.Eval(true, []byte(fmt.Sprint("naf", w)), []byte(intHex(k)))
 		if acc.Cmp(k) != 0 {
-			c.Fail("NAF digits do not reconstruct the scalar", map[string]any{"k": intHex(k), "w": w})
+			c.Mech("NAF digits do not reconstruct the scalar", map[string]any{"k": intHex(k), "w": w})
 		}
 	}
 	// --- tables (a share of the cases: each is ~30 model multiplications)
@@ -77,19 +77,19 @@ func (c *Ctx) shimChecks(r *gen.Rand, i int64, k *big.Int, s *edwards25519.Scala
 		for x := -8; x <= 8; x++ {
 			var got *edwards25519.Point
 			if pv := catch(func() { got = edwards25519.VerifProjSelect(pc.P, int8(x)) }); pv != nil {
-				c.Fail("projLookupTable selection panicked", map[string]any{"x": x, "panic": pv})
+				c.Mech("projLookupTable selection panicked", map[string]any{"x": x, "panic": pv})
 				continue
 			}
 			c.Eval(true, []byte("projsel"), encOf(pc.M), []byte{byte(x)})
 			if why, _ := checkPoint(got, signedMul(x, pc.M)); why != "" {
-				c.Fail("dynamic lookup table: entry selected for digit x is not [x]Q", map[string]any{"x": x, "Q": ptHex(pc.M) + " via " + pc.Build, "why": why})
+				c.Mech("dynamic lookup table: entry selected for digit x is not [x]Q", map[string]any{"x": x, "Q": ptHex(pc.M) + " via " + pc.Build, "why": why})
 			}
 		}
 		for x := 1; x < 16; x += 2 {
 			got := edwards25519.VerifNaf5Select(pc.P, int8(x))
 			c.Eval(true, []byte("naf5sel"), encOf(pc.M), []byte{byte(x)})
 			if why, _ := checkPoint(got, signedMul(x, pc.M)); why != "" {
-				c.Fail("NAF-5 table: entry for odd digit x is not [x]Q", map[string]any{"x": x, "Q": ptHex(pc.M) + " via " + pc.Build, "why": why})
+				c.Mech("NAF-5 table: entry for odd digit x is not [x]Q", map[string]any{"x": x, "Q": ptHex(pc.M) + " via " + pc.Build, "why": why})
 			}
 		}
 		c.Tally("shim: dynamic tables checked (17 + 8 entries each)")
@@ -102,7 +102,7 @@ func (c *Ctx) shimChecks(r *gen.Rand, i int64, k *big.Int, s *edwards25519.Scala
 		c.Eval(true, []byte("affsel"), []byte{byte(ti), byte(x)})
 		c.Bit("shim: basepoint table (index, digit) pairs", 32*17, ti*17+x+8)
 		if why, _ := checkPoint(got, signedMul(x, base)); why != "" {
-			c.Fail("precomputed basepoint table: entry is not [x * 256^i]B", map[string]any{"i": ti, "x": x, "why": why})
+			c.Mech("precomputed basepoint table: entry is not [x * 256^i]B", map[string]any{"i": ti, "x": x, "why": why})
 		}
 	}
 	x8 := 1 + 2*int((i/4)%64)
@@ -110,6 +110,6 @@ func (c *Ctx) shimChecks(r *gen.Rand, i int64, k *big.Int, s *edwards25519.Scala
 	c.Eval(true, []byte("naf8sel"), []byte{byte(x8)})
 	c.Bit("shim: NAF-8 table odd digits", 64, x8/2)
 	if why, _ := checkPoint(got, signedMul(x8, ref.Base())); why != "" {
-		c.Fail("precomputed NAF-8 table: entry for odd digit x is not [x]B", map[string]any{"x": x8, "why": why})
+		c.Mech("precomputed NAF-8 table: entry for odd digit x is not [x]B", map[string]any{"x": x8, "why": why})
 	}
 }
